@@ -215,10 +215,9 @@ pub fn c16_p3_verify_init_bad_agg_id() {
 }
 
 //@ harness: c16_p3_verify_init_short_proof
-//@ prop: C16
-//@ tier: thorough
-//@ cost: 600
-//@ timeout: 2400
+//@ prop: C16,C02
+//@ tier: quick
+//@ cost: 10
 //@ funcs: Prio3::verify_init (leader arm)
 //@ bounds: Prio3<Count<GF(17)>>, 2 aggregators; leader share whose proofs_share has 4 instead of 5 elements (element values concrete; verify key and nonce symbolic)
 //@ asserts: Err (no slice-range panic)
